@@ -41,18 +41,21 @@ MayRaise(st) ==
     [] st = "sanitize"       -> {}
     [] st = "load_locales"   -> {"ValueError"}
     [] st = "applicable"     -> {}
-    [] st = "timestamp"      -> {"OverflowError", "ValueError"}
+    [] st = "timestamp"      -> {}        \* a 10-digit epoch (year <= 2286) cannot leave the datetime range
     [] st = "relative"       -> {"OverflowError", "ValueError"}
     [] st = "custom_formats" -> {"ValueError", "OverflowError"}
     [] st = "absolute"       -> {"ValueError", "OverflowError", "AmbiguousTimeError"}
     [] st = "nospaces"       -> {"ValueError"}
     [] OTHER -> {}
-\* CatchAbs: what _try_parser catches (a constant so that the pinned and the repaired design can be compared)
-Caught(st, catchAbs) ==
+\* catchAbs: what _try_parser catches; catchFmt: what parse_with_formats catches around the timezone
+\* application (constants so that the pinned and the repaired design can be compared)
+Caught(st, catchAbs, catchFmt) ==
   CASE st = "relative" -> {"OverflowError", "ValueError"}
     [] st = "absolute" -> catchAbs
     [] st = "nospaces" -> catchAbs
+    [] st = "formats_first" -> catchFmt
+    [] st = "custom_formats" -> catchFmt
     [] OTHER -> {}
-Escapes(st, catchAbs) == MayRaise(st) \ Caught(st, catchAbs)
+Escapes(st, catchAbs, catchFmt) == MayRaise(st) \ Caught(st, catchAbs, catchFmt)
 Documented == {"TypeError", "ValueError", "SettingValidationError"}
 =============================================================================
